@@ -411,3 +411,9 @@ def extra_evidence():
         for kind in ("cdf", "pexit"):
             n += int(otab.load(kind, v)["data"].size)
     return {"shipped_table_nodes_enumerated": n, "shipped_exhaustive": True}
+
+# the same oracles in interpreters started with -O / -OO (see core.env_variant)
+from ..core import env_variant  # noqa: E402
+
+SUBCHECKS.append(env_variant(__name__, next(sc for sc in SUBCHECKS if sc.name == "slice")))
+SUBCHECKS.append(env_variant(__name__, next(sc for sc in SUBCHECKS if sc.name == "rows")))
